@@ -49,7 +49,7 @@ def validate(ctx, cases, tag, width=64, jobs=16, module="TshRun", timeout=2400, 
     # TLC does not need the script text
     slim = []
     for c in ran:
-        d = {k: v for k, v in c.items() if k not in ("script", "src", "tags")}
+        d = {k: v for k, v in c.items() if k not in ("script", "src", "tags", "testExpects", "base")}
         d["obs"] = {k: v for k, v in c["obs"].items() if k not in ("stderr", "err", "sha")}
         slim.append(d)
     p2 = os.path.join(wd, "tlc-cases.ndjson")
